@@ -32,6 +32,9 @@ def gen(tier, rng):
             t0 = 1700000000 * P.NS
             for var in ("sync", "async:1"):
                 out.append((P.line(var, iv, None, None, ex, True, [t0, t0, t0 + ex * P.NS, t0 + ex * P.NS + 1], ["pending", "pending", "success"]), "first-poll"))
+                # a session that is slowed down / fails in between: the NEXT session started from the same response (the harness
+                # runs every script twice, the second time from a clone) again begins with exactly the reported interval
+                out.append((P.line(var, iv, None, None, ex, True, [t0, t0, t0, t0 + ex * P.NS, t0 + ex * P.NS + 1], ["slow", "fail", "pending", "denied"]), "first-poll-after-slow-down"))
     # long lifetimes are used in full: polling continues at every instant before start + expires_in (a day, a week, a
     # year, 2^31 and 2^32 seconds after the start) and stops right after it
     for ex in (86400, 86401, 172800, 604800, 31536000, 2 ** 31 + 10, 2 ** 32 + 10, 10 ** 10):
